@@ -70,6 +70,8 @@ type Opts struct {
 	// the first letter (t3 / T3); SameFileNames: now and then two files are added under one name.
 	CaseTwins     bool
 	SameFileNames bool
+	// ModeFunc: the zero-argument function vmode() is installed (the harness re-registers it between renders)
+	ModeFunc bool
 	// UnnamedFiles: now and then a file is added under the empty name
 	UnnamedFiles bool
 	// Focus names one rarely generated construct that most templates of this case will contain
@@ -254,6 +256,9 @@ func (x *g) expr(t ty, d int) string {
 				return "$ij.user"
 			}
 		case 6:
+			if x.o.ModeFunc && x.chance(0.3) {
+				return "vmode()"
+			}
 			if len(x.o.Funcs) > 0 {
 				return x.o.Funcs[x.pick(len(x.o.Funcs))] + "(" + x.expr(tStr, d-1) + ")"
 			}
@@ -946,7 +951,7 @@ func (x *g) template(file int, ns, name string) *Template {
 
 // Features lists the constructs Opts.Focus can name.
 var Features = []string{"augment-into-map", "augment-empty", "augment-onto-empty", "data-expr-call", "msg-only-let", "msg-only-param", "push-onto-range", "push-onto-data", "map-literal-print",
-	"css-expr", "literal", "default-first-switch", "plural-msg", "ifempty", "ij", "global", "nested-let-call", "deep-nesting", "long-value", "deep-calls", "phname-tag", "mutual-data-all", "text-only-callee", "directive-list-arg"}
+	"css-expr", "literal", "default-first-switch", "plural-msg", "ifempty", "ij", "global", "nested-let-call", "deep-nesting", "long-value", "deep-calls", "phname-tag", "mutual-data-all", "text-only-callee", "directive-list-arg", "mode-func"}
 
 // FocusFor draws the focus of a case from its seed: none for two cases in five, otherwise one of
 // the Features.
@@ -1111,6 +1116,10 @@ func (x *g) focusNode() *Node {
 					return &Node{K: "print", E: x.strLit(), Dirs: []string{"|vwrap:[" + x.use(vs[x.pick(len(vs))]) + ", '-']"}}
 				}
 			}
+		}
+	case "mode-func":
+		if x.o.ModeFunc {
+			return &Node{K: "print", E: "vmode()"}
 		}
 	case "long-value":
 		// an escaped value longer than the small buffers code tends to have (64, 256, 4096 bytes), with
